@@ -6,7 +6,12 @@ rows = []
 for m in sorted(glob.glob(os.path.join(ROOT, "seeded", "*", "meta.json"))):
     d = json.load(open(m)); name = os.path.basename(os.path.dirname(m))
     cr = d.get("check_result", {})
-    how = "concrete replay" if cr.get("concrete_replay") else ("tie broken, no-failing-input-found" if cr.get("detected") else "MISSED")
+    if os.path.exists(os.path.join(os.path.dirname(m), "OBSOLETE.txt")):
+        rows.append(f"| {name} | {d.get('breaks_property')} | {d.get('summary','').replace('|','/')[:160]} | – | obsolete (see OBSOLETE.txt: the change no longer breaks the property on the repaired code) |")
+        continue
+    how = "concrete replay" if cr.get("concrete_replay") else ("tie broken, no-failing-input-found" if cr.get("detected") else "MISSED by this property's check")
+    if d.get("also_checked_by"):
+        how += "; " + ", ".join(f"./check {k}: {v}" for k, v in d["also_checked_by"].items())
     rows.append(f"| {name} | {d.get('breaks_property')} | {d.get('summary','').replace('|','/')[:160]} | {d.get('needs','').replace('|','/')[:140]} | {how} |")
 out = ["# Seeded property-breaking changes", "",
        "Each directory holds `patch.diff` (against /repo), the demonstration that fails with the change and passes without it, and `meta.json` (what it needs to manifest, what was run, the check's verdict). Produced by fresh sub-agents that saw only the property text; confirmed with `tools/seedtest.py` in a scratch worktree (never applied to /repo).", "",
